@@ -237,6 +237,53 @@ func gcChild(args []string) int {
 			}
 			enc.Encode(map[string]any{"op": "gc_result", "result": res})
 		}
+		// direct codec use: NewReadBuf + Codec.Read, the ReadBuf dropped without extracting its bank while the
+		// decoded value is kept; collections and further decodes (which draw banks from the pool) follow
+		for si, sh := range gcShapes() {
+			zero := reflect.New(sh.typ).Elem().Interface()
+			s, err := avro.SchemaForType(zero)
+			if err != nil {
+				continue
+			}
+			codec, err := s.Codec(zero)
+			if err != nil {
+				continue
+			}
+			v := genValues(c.rng, sh.typ, 1)[0]
+			wb := avro.NewWriteBuf(nil)
+			codec.Write(wb, v.Addr().UnsafePointer())
+			data := append([]byte{}, wb.Bytes()...)
+			res := gcResult{Shape: sh.name, Codec: "direct", Mode: "decode", Inputs: []any{projectValue(v)}}
+			enc.Encode(map[string]any{"op": "gc_open", "shape": sh.name + "-direct", "round": round})
+			f.Sync()
+			kept := reflect.New(sh.typ)
+			func() {
+				defer func() {
+					if r := recover(); r != nil {
+						res.Panic = fmt.Sprint(r)
+					}
+				}()
+				func() {
+					r := avro.NewReadBuf(data)
+					res.Err = errString(codec.Read(r, unsafe.Pointer(kept.Pointer())))
+				}() // the ReadBuf is unreachable from here on
+				res.Delivered = append(res.Delivered, safeProject(kept.Elem()))
+				for k := 0; k < 6; k++ {
+					gcNow()
+					// other decodes of other data through fresh ReadBufs
+					o := genValues(c.rng, sh.typ, 1)[0]
+					ow := avro.NewWriteBuf(nil)
+					codec.Write(ow, o.Addr().UnsafePointer())
+					tmp := reflect.New(sh.typ)
+					r2 := avro.NewReadBuf(ow.Bytes())
+					codec.Read(r2, unsafe.Pointer(tmp.Pointer()))
+					r2.ExtractResourceBank().Close()
+				}
+				res.After = append(res.After, safeProject(kept.Elem()))
+			}()
+			enc.Encode(map[string]any{"op": "gc_result", "result": res})
+			_ = si
+		}
 		// encode side: maps written while collections run concurrently
 		for _, sh := range []rtCase{staticOf[GCShape6]("GCShape6"), staticOf[GCShape2]("GCShape2"), staticOf[SColl]("SColl")} {
 			v := genValues(c.rng, sh.typ, 1)[0]
